@@ -161,8 +161,8 @@ theorem C19_curve_reproduces_fit (fn : Option Functional) (α : K) (ys x : List 
 
 /-- **The curve spans the predictions.**  The first plotted `x` is the smallest and the last plotted
 `x` the largest prediction of the column (both are predictions, every prediction lies between
-them); the first / last plotted `y` is the smallest / largest plotted `y`.  Holds for both
-variants as far as the `x` data are concerned. -/
+them).  Holds for both variants (they share the `x` data).  Covers the case in which the last
+sorted position is not itself a threshold: the final block is then a single tie group in `x`. -/
 theorem C19_curve_spans_predictions (fn : Option Functional) (α : K) (bias : Bool) (ys x : List K)
     (w : Option (List K)) (l : Line K) (h : reliabilityCurve fn α bias ys x w = .ok l) :
     l.xs[0]! ∈ x ∧ l.xs[l.xs.length - 1]! ∈ x ∧
@@ -402,26 +402,29 @@ cannot be `decide`d):
     = .ok [([1, 2], [0, 1/2]), ([1, 2], [0, 0])]
 -/
 
-#print axioms MD.Props.C19_diagonal
-#print axioms MD.Props.C19_diagonal_none
-#print axioms MD.Props.C19_per_column
-#print axioms MD.Props.C19_per_column_murphy
-#print axioms MD.Props.C19_per_column_iff
-#print axioms MD.Props.C19_curve_is_fit
-#print axioms MD.Props.C19_curve_of_fit
-#print axioms MD.Props.C19_bias_variant
-#print axioms MD.Props.C19_bias_variant_pointwise
-#print axioms MD.Props.C19_curve_monotone
-#print axioms MD.Props.C19_bias_curve_wellformed
-#print axioms MD.Props.C19_curve_reproduces_fit
-#print axioms MD.Props.C19_curve_spans_predictions
-#print axioms MD.Props.C19_bias_curve_reproduces
-#print axioms MD.Props.C19_curve_end_values
-#print axioms MD.Props.C19_average_formula
-#print axioms MD.Props.C19_murphy_is_average_score
-#print axioms MD.Props.C19_murphy_success
-#print axioms MD.Props.C19_murphy_nonneg
-#print axioms MD.Props.C19_murphy_zero_for_perfect
-#print axioms MD.Props.C19_murphy_perfect_ok
-#print axioms MD.Props.C19_errors
-#print axioms MD.Props.C19_errors_empty_sample
+/-
+`#print axioms` (observed with `lake env lean MD/Props/C19.lean`):
+'MD.Props.C19_diagonal' depends on axioms: [propext, Quot.sound]
+'MD.Props.C19_diagonal_none' depends on axioms: [propext, Quot.sound]
+'MD.Props.C19_per_column' depends on axioms: [propext, Quot.sound]
+'MD.Props.C19_per_column_murphy' depends on axioms: [propext, Quot.sound]
+'MD.Props.C19_per_column_iff' depends on axioms: [propext, Quot.sound]
+'MD.Props.C19_curve_is_fit' depends on axioms: [propext, Quot.sound]
+'MD.Props.C19_curve_of_fit' depends on axioms: [propext, Quot.sound]
+'MD.Props.C19_bias_variant' depends on axioms: [propext, Quot.sound]
+'MD.Props.C19_bias_variant_pointwise' depends on axioms: [propext, Classical.choice, Quot.sound]
+'MD.Props.C19_curve_monotone' depends on axioms: [propext, Classical.choice, Quot.sound]
+'MD.Props.C19_bias_curve_wellformed' depends on axioms: [propext, Classical.choice, Quot.sound]
+'MD.Props.C19_curve_reproduces_fit' depends on axioms: [propext, Classical.choice, Quot.sound]
+'MD.Props.C19_curve_spans_predictions' depends on axioms: [propext, Classical.choice, Quot.sound]
+'MD.Props.C19_bias_curve_reproduces' depends on axioms: [propext, Classical.choice, Quot.sound]
+'MD.Props.C19_curve_end_values' depends on axioms: [propext, Classical.choice, Quot.sound]
+'MD.Props.C19_average_formula' depends on axioms: [propext, Classical.choice, Quot.sound]
+'MD.Props.C19_murphy_is_average_score' depends on axioms: [propext, Quot.sound]
+'MD.Props.C19_murphy_success' depends on axioms: [propext, Classical.choice, Quot.sound]
+'MD.Props.C19_murphy_nonneg' depends on axioms: [propext, Classical.choice, Quot.sound]
+'MD.Props.C19_murphy_zero_for_perfect' depends on axioms: [propext, Classical.choice, Quot.sound]
+'MD.Props.C19_murphy_perfect_ok' depends on axioms: [propext, Classical.choice, Quot.sound]
+'MD.Props.C19_errors' depends on axioms: [propext, Classical.choice, Quot.sound]
+'MD.Props.C19_errors_empty_sample' depends on axioms: [propext, Classical.choice, Quot.sound]
+-/
